@@ -4,6 +4,7 @@
   set_* on one future.
 -/
 import MoreExec.Model.MeFuture
+import MoreExec.Gen.K2
 
 namespace MoreExec.MeFuture
 
@@ -212,5 +213,9 @@ def demoRun : List Act :=
    .cancelNoop 3, .invokeNext 4, .invokeEnd 4]
 example : ((run init demoRun).map (fun s => (s.invoked, s.registered, s.owed, s.cancelTrue))) =
     some ([10, 12, 11], [10, 11, 12], none, 0) := by decide
+
+/-- (fact of common.py, regenerated) `_Future.cancel` makes its "already cancelled / already done" checks and calls `_me_cancel()`
+while holding the future's own lock: the model's `cancelOk / cancelNoop / cancelVeto` are sections on that lock. -/
+theorem C02_cancel_sections_under_lock : MoreExec.Gen.K2.futureCancelUnderLock = true := by decide
 
 end MoreExec.MeFuture
